@@ -48,7 +48,7 @@ Qed.
 (* through consistent caches a decode sees the same parser modules as through fresh imports *)
 Lemma cached_env_equiv c e k : cache_ok e k -> env_equiv c (cached_env e k) e.
 Proof.
-  intros (Hu & Hs & Hc). split; [intros; reflexivity|]. intros _. repeat split; intros m; cbn [cached_env ud_import src_import co_import].
+  intros (Hu & Hs & Hc). split; [reflexivity|]. split; [intros; reflexivity|]. intros _. repeat split; intros m; cbn [cached_env ud_import src_import co_import].
   - destruct (assoc (k_ud k) m) as [v|] eqn:Ea; [|reflexivity]. specialize (Hu m v Ea). unfold ud_entry in Hu.
     destruct (ud_import e m); inversion Hu; subst; reflexivity.
   - destruct (assoc (k_src k) m) as [v|] eqn:Ea; [|destruct (src_import e m); cbn; auto]. specialize (Hs m v Ea). unfold src_entry in Hs.
@@ -75,7 +75,7 @@ Proof. apply (decode_count_equiv {| allow_plugins := true |}). apply cached_env_
 Theorem inconsistent_cache_matters :
   exists e k c data, ~ cache_ok e k /\ decode (cached_env e k) c (fun _ => true) data <> decode e c (fun _ => true) data.
 Proof.
-  set (e := {| comp_name := fun _ _ => None;
+  set (e := {| registry := []; comp_name := fun _ _ => None;
                ud_import := fun _ => IFound (fun _ _ _ => PRetJ (JObj [(L "k", JNull)]));
                src_import := fun _ => INotFound; co_import := fun _ => INotFound |}).
   set (k := {| k_ud := [(L "udparsers.b0000.b0000", None)]; k_src := []; k_co := [] |}).
